@@ -185,7 +185,26 @@ def out_of_range(v, base):
     return not in_range(v, base)
 
 
+def lem_public_functions_bind_their_bases(which):
+    """the twelve public conversion functions are the three helpers with exactly the bases their names say"""
+    import pycel.lib.engineering as E
+    digits = {'bin': 2, 'oct': 8, 'dec': 10, 'hex': 16}
+    src, dst = which.split('2')
+    f = getattr(E, which)
+    if src == 'dec':
+        return f.func.__name__ == '_dec2base' and f.keywords == {'base': digits[dst]} and f.args == ()
+    if dst == 'dec':
+        return f.func.__name__ == '_base2dec' and f.keywords == {'base': digits[src]} and f.args == ()
+    return (f.func.__name__ == '_base2base' and f.keywords == {'base_in': digits[src], 'base_out': digits[dst]}
+            and f.args == ())
+
+
+PUBLIC = ('bin2dec', 'bin2hex', 'bin2oct', 'dec2bin', 'dec2hex', 'dec2oct', 'hex2bin', 'hex2dec', 'hex2oct', 'oct2bin',
+          'oct2dec', 'oct2hex')
+
 LEMMAS = [
+    Lemma('public_functions_bind_their_bases', 'C18', dict(which=Union(*[Const(n) for n in PUBLIC])),
+          lem_public_functions_bind_their_bases, notes='finite: the functools.partial bindings of the module as it is'),
     Lemma('dec2x_x2dec_roundtrip', 'C18', dict(v=Int(), base=bases), lem_roundtrip,
           requires=[in_range], modular=[B2D, D2B]),
     Lemma('negative_is_ten_digits', 'C18', dict(v=Int(), base=bases), lem_negative_is_10_digits,
